@@ -11,6 +11,7 @@
 #include <unistd.h>
 #include <algorithm>
 #include "engine.hpp"
+#include "sched.hpp"
 
 namespace jv {
 
@@ -117,6 +118,23 @@ static std::string first_log_difference(const RunResult& a, const RunResult& b) 
 // result carries the counters/cases of the first execution.
 static RunResult run_fixed(const Plan& plan, Replicas& reps, const std::string& mode, const UnitPick& p, const std::string& focus, bool verbose) {
     if (mode == "single") return execute_plan(plan, reps, p.reps[0], p.views[0], verbose, focus, false);
+    if (mode == "flipdispatch") {
+        // S5 configuration fault: swap replica A's three run-time dispatch pointers between the two routine families at seeded yield points
+        RunResult a = execute_plan(plan, reps, p.reps[0], p.views[0], verbose, focus, false);
+        if (a.violated) return a;
+        Rep* R = reps.by_label(p.reps[0]);
+        struct Flip { Rep* R; Rng rng; uint64_t flips; int cur; } fl{R, Rng(hash64(a.fingerprint)), 0, 1};
+        static thread_local Flip* tl_flip; tl_flip = &fl;
+        g_yield_extra = [] { Flip* f = tl_flip; if (f && (f->rng.next() & 0x3FF) == 0) { f->cur ^= 1; f->R->jv_set_dispatch(f->cur); f->flips++; } };
+        RunResult b = execute_plan(plan, reps, p.reps[0], p.views[0], verbose, focus, false);
+        g_yield_extra = nullptr; tl_flip = nullptr; R->apply_dispatch();
+        a.counters["fault:dispatch_pointer_flips_inside_operations"] += fl.flips;
+        if (b.violated) { b.v.detail += " [while flipping dispatch pointers]"; b.counters = a.counters; return b; }
+        if (a.fingerprint != b.fingerprint) {
+            a.violated = true; a.v = {"C03", "dispatch-flip-divergence", strf("run with %llu dispatch-pointer flips at yield points diverges from the undisturbed run on %s", (unsigned long long) fl.flips, p.reps[0].c_str()), 0};
+        }
+        return a;
+    }
     std::vector<RunResult> rs; std::vector<std::string> tags;
     for (auto& r : p.reps) for (int v : p.views) { rs.push_back(execute_plan(plan, reps, r, v, verbose, focus, false)); tags.push_back(r + (v ? "/C++" : "/C")); }
     RunResult out = rs[0];
